@@ -1,6 +1,7 @@
 package quicworld
 
 import (
+	"io"
 	"context"
 	"fmt"
 	"net"
@@ -87,6 +88,14 @@ func OptionsFor(cc *ConnCase) (Options, error) {
 		opt.ClientKind = "plain"
 	case "unil":
 		opt.ClientKind = "unil"
+	case "plain~0rtt", "unil~0rtt":
+		// a resuming client: RunConnCase first runs a fault-free priming connection (session ticket), the
+		// measured connection is dialled with DialEarly and the transfer starts in 0-RTT
+		opt.ClientKind = strings.TrimSuffix(cc.Client, "~0rtt")
+		cache := tls.NewLRUClientSessionCache(10)
+		opt.ClientTLS = func(c *tls.Config) { c.ClientSessionCache = cache }
+		opt.Early = true
+		sconf.Allow0RTT = true
 	default:
 		base, variant, _ := strings.Cut(cc.Client, "~")
 		id, ok := QUICIDs[base]
@@ -157,6 +166,47 @@ func RunConnCase(cc *ConnCase) *CaseResult {
 		res.Viols = append(res.Viols, Viol{"harness|world", err.Error()})
 		return res
 	}
+	early := strings.HasSuffix(cc.Client, "~0rtt")
+	if early {
+		// priming connection, fault-free; the schedule's ordinals start with the measured connection
+		w.Router.SuspendFaults(true)
+		pctx, pcancel := context.WithTimeout(context.Background(), 20*time.Second)
+		pch := make(chan *quic.Conn, 1)
+		go func() {
+			c, _ := w.Accept(pctx)
+			pch <- c
+		}()
+		pc, perr := w.Dial(pctx)
+		ps := <-pch
+		if perr == nil && ps != nil {
+			if s, err := pc.OpenUniStreamSync(pctx); err == nil {
+				s.Write([]byte("prime"))
+				s.Close()
+			}
+			if s, err := ps.AcceptUniStream(pctx); err == nil {
+				io.ReadAll(s)
+			}
+			time.Sleep(100 * time.Millisecond) // session ticket
+		}
+		if pc != nil {
+			pc.CloseWithError(0, "")
+		}
+		if ps != nil {
+			ps.CloseWithError(0, "")
+		}
+		pcancel()
+		time.Sleep(500 * time.Millisecond)
+		w.Router.SuspendFaults(false)
+		if w.Wire != nil {
+			w.Wire.ResetOrdinals()
+		}
+		if perr != nil || ps == nil {
+			res.Viols = append(res.Viols, Viol{"harness|priming-connection-failed", fmt.Sprint(perr)})
+			res.DialErr = fmt.Errorf("verif: priming connection failed: %v", perr)
+			w.Close()
+			return res
+		}
+	}
 	ctx, cancel := context.WithTimeout(context.Background(), 45*time.Second)
 	type acc struct {
 		c   *quic.Conn
@@ -167,7 +217,13 @@ func RunConnCase(cc *ConnCase) *CaseResult {
 		c, err := w.Accept(ctx)
 		accCh <- acc{c, err}
 	}()
-	client, derr := w.Dial(ctx)
+	var client *quic.Conn
+	var derr error
+	if early {
+		client, derr = w.DialEarly(ctx)
+	} else {
+		client, derr = w.Dial(ctx)
+	}
 	res.DialErr = derr
 	var server *quic.Conn
 	if derr == nil {
@@ -521,4 +577,60 @@ func RunDialsSimultaneous(opt Options, n int, ts TransferSpec, idle time.Duratio
 		res.Dials[n-1].Viols = append(res.Dials[n-1].Viols, Viol{"pool|" + strings.ReplaceAll(v.What, " ", "-") + "|" + v.Kind, v.String()})
 	}
 	return res
+}
+
+// AwaitOrDeadlock waits for done.  Inside a synctest bubble a goroutine that waits for a sync.Mutex is not
+// "durably blocked": virtual time stops, synctest.Wait never returns, and a time.After based limit would
+// never fire - a lock-order deadlock in the code under test would hang the whole bubble until the
+// runner's wall-clock watchdog.  So the wait is done by yielding: the other goroutines get the processor
+// again and again; if after many rounds done has not happened and the same goroutine of the bubble sits in
+// the same Mutex.Lock / RWMutex call as many rounds before, the goroutines involved are reported as a
+// deadlock (their stacks are returned).  If nobody waits for a lock, the wait falls back to virtual time.
+func AwaitOrDeadlock(done <-chan struct{}, virtualLimit time.Duration) (ok bool, deadlock string) {
+	lockWaiters := func() map[string]string {
+		out := map[string]string{}
+		for _, g := range BubbleGoroutines() {
+			head, _, _ := strings.Cut(g, "\n")
+			if strings.Contains(head, "sync.Mutex.Lock") || strings.Contains(head, "sync.RWMutex") || strings.Contains(head, "semacquire") {
+				id, _, _ := strings.Cut(head, " [")
+				out[id] = g
+			}
+		}
+		return out
+	}
+	var before map[string]string
+	for round := 0; round < 40; round++ {
+		for i := 0; i < 20000; i++ {
+			select {
+			case <-done:
+				return true, ""
+			default:
+			}
+			runtime.Gosched()
+		}
+		now := lockWaiters()
+		if len(now) == 0 {
+			break // nobody waits for a lock: whatever is pending needs (virtual) time
+		}
+		if round >= 10 && before != nil {
+			var stuck []string
+			for id, g := range now {
+				if prev, was := before[id]; was && prev == g {
+					stuck = append(stuck, g)
+				}
+			}
+			if len(stuck) > 0 {
+				return false, strings.Join(stuck, "\n\n")
+			}
+		}
+		if round%10 == 0 {
+			before = now
+		}
+	}
+	select {
+	case <-done:
+		return true, ""
+	case <-time.After(virtualLimit):
+		return false, ""
+	}
 }
